@@ -311,9 +311,24 @@ func satClause(rng *rand.Rand, info map[string]string) clauseGen {
 	}
 }
 
-// wfQuery: 1..4 well-formed clauses, half of the time all satisfied by the given record.
+// wfQuery: 1..4 well-formed clauses (one time in twelve 5 … 40: nothing bounds the number of clauses of a filter; in a long
+// one the clause that decides often sits near the end), half of the time all satisfied by the given record.
 func wfQuery(rng *rand.Rand, info map[string]string) (text, intent string) {
 	n := 1 + rng.Intn(4)
+	if rng.Intn(12) == 0 {
+		n = 5 + rng.Intn(36)
+		// all but the last few satisfied: a reader that stops early lists the server
+		var cs []clauseGen
+		for len(cs) < n-1-rng.Intn(3) {
+			cs = append(cs, satClause(rng, info))
+		}
+		for len(cs) < n {
+			if c := randClause(rng, info); c.wf {
+				cs = append(cs, c)
+			}
+		}
+		return joinClauses(cs)
+	}
 	var cs []clauseGen
 	allSat := rng.Intn(2) == 0
 	for len(cs) < n {
